@@ -11,6 +11,9 @@ import Dashu.Proofs.NT.Zimmermann
 import Dashu.Proofs.NT.PrimRoot
 import Dashu.Proofs.NT.PrimRootU16
 import Dashu.Proofs.NT.PrimRootU128
+import Dashu.Proofs.NT.PrimRootU32All
+import Dashu.Proofs.NT.PrimRootU128Cbrt
+import Dashu.Proofs.NT.RootTablesGen
 import Dashu.Proofs.NT.LehmerBuf
 import Dashu.Proofs.NT.LehmerBufB
 import Dashu.Proofs.NT.LehmerBufC
@@ -475,7 +478,7 @@ theorem prim_exact_of_total {bits : Nat} (hb : bits = 8 ∨ bits = 16 ∨ bits =
 /-- **`sqrt_rem` exactly as the driver runs it for the 64-bit word** (mirrored `u64` / `u128` primitives,
     `sqrt_rem_42`, the Karatsuba recursion, `sqrt_rem_large`): the floor square root and `value − root²`
     for EVERY `x`.  The only hypothesis left is that the `u64` and `u128` primitive routines never
-    overflow (`isSome`: they are proved sound, `prim_sqrt_rem_sound`; totality is proved up to `u16`). -/
+    overflow (`isSome`: they are proved sound, `prim_sqrt_rem_sound`; totality is proved up to `u32`, `prim_root_u32_total`). -/
 theorem sqrt_rem_driver_spec
     (h64 : ∀ y, y < 2 ^ 64 → (sqrtRemPrimBits 64 y).isSome)
     (h128 : ∀ y, y < 2 ^ 128 → (sqrtRemPrimBits 128 y).isSome) (x : Nat) :
@@ -486,15 +489,35 @@ theorem sqrt_rem_driver_spec
     (prim_exact_of_total (bits := 64) (by decide) h64)
     (prim_exact_of_total (bits := 128) (by decide) h128) x
 
-/-- **`cbrt_rem` of `u8`, `u16`, `u32`, `u64` is sound** on every value of the type -/
-theorem prim_cbrt_rem_sound {bits x : Nat} (hb : bits = 8 ∨ bits = 16 ∨ bits = 32 ∨ bits = 64)
+/-- **`cbrt_rem` of `u8`, `u16`, `u32`, `u64`, `u128` is sound** on every value of the type (Round 5: incl. `u128` — the
+    B = 2^22 cube-root step over the `u64` routine: `c1, r1` of the high 62 bits (both the 127-bit branch with
+    `c >>= 1` and the 128-bit branch), `q, u = div_rem(r1·B + b2, 3·c1²)`, the signed remainder
+    `u·B² + b1·B + b0 − (3·c1·B + q)·q²` and the `while r < 0` descent can only produce the floor cube root and
+    its remainder, or overflow) -/
+theorem prim_cbrt_rem_sound {bits x : Nat} (hb : bits = 8 ∨ bits = 16 ∨ bits = 32 ∨ bits = 64 ∨ bits = 128)
     (hx : x < 2 ^ bits) {r : Nat × Nat} (h : cbrtRemPrimBits bits x = some r) :
     IsRoot x 3 r.1 ∧ r.1 ^ 3 + r.2 = x := by
-  rcases hb with rfl | rfl | rfl | rfl
+  rcases hb with rfl | rfl | rfl | rfl | rfl
   · exact fixCbrtError_sound (show fixCbrtError 8 x 0 = some r from h)
   · exact cbrtRemNorm_sound normCbrtU16_sound hx h
   · exact cbrtRemNorm_sound normCbrtU32_sound hx h
   · exact cbrtRemNorm_sound normCbrtU64_sound hx h
+  · exact cbrtRemU128_sound hx h
+
+/-- the arithmetic core of the `u128` cube-root step, for any base `B`: with `A = c1³ + r1`, `r1·B + b2 = 3c1²·q + u`,
+    `u < 3c1²`, the candidate `c = c1·B + q` has the exact signed remainder `u·B² + low − (3·c1·B + q)·q²` and is never
+    below the root (`n < (c + 1)³`) — so the descent loop only ever has to go down -/
+theorem cbrt_karatsuba_step {A b2 low c1 r1 q u B n : Nat} (hn : n = A * B ^ 3 + b2 * B ^ 2 + low) (hA : c1 ^ 3 + r1 = A)
+    (hlow : low < B ^ 2) (hdiv : r1 * B + b2 = 3 * c1 ^ 2 * q + u) (hu : u < 3 * c1 ^ 2) :
+    ((n : Int) - ((c1 * B + q : Nat) : Int) ^ 3 = ((u * B ^ 2 + low : Nat) : Int) - (((3 * c1 * B + q) * q ^ 2 : Nat) : Int)) ∧
+    n < (c1 * B + q + 1) ^ 3 :=
+  cbrt_step hn hA hlow hdiv hu
+
+/-- non-vacuity: the `u128` routine answers through both branches (127-bit and 128-bit operands, with descent steps)
+    and the hypotheses of the step are met by the values it computes -/
+example : cbrtRemPrimBits 128 (2 ^ 127 + 12345) = some (5541191377756, 58550521324026917344820857) ∧
+    cbrtRemPrimBits 128 (2 ^ 126 - 1) = some (4398046511103, 58028439341489006246363136) ∧
+    cbrtRemPrimBits 128 (10 ^ 30 + 7) = some (10 ^ 10, 7) := by decide +kernel
 
 /-- non-vacuity: the routines do answer (kernel evaluation of the mirrored `u32` / `u64` Newton code) -/
 example : sqrtRemPrimBits 64 (2 ^ 63 + 12345) = some (3037000499, 5928539152) ∧
@@ -543,6 +566,49 @@ theorem prim_root_u16_total (x : Nat) (hx : x < 65536) :
       have e3 : ∀ t : Nat, t ^ 3 = t * t * t := fun t => by ring
       exact ⟨c, r, heq, ⟨by rw [e3]; exact h2.1.1, by rw [e3]; exact h2.1.2⟩, h2.2⟩
     · exact absurd h2 (by simp)
+
+/-- **`u32`: `sqrt_rem` and `cbrt_rem` are TOTAL and exact on all 2^32 values** (Round 5) — no `+ - *` of the table /
+    Newton stages overflows, every estimate handed to `fix_*_error!` is an under-estimate, the `saturating_mul`, the
+    `s -= 4` / `r - 10` safety margins and the second Newton step `s += wmul16_hi((e >> 16) as u16, r)` stay in range.
+    Not by enumeration of the operands: the cube-root estimate reads only the top 16 bits (`estCbrtU32_top`); in the
+    square root the low 16 bits enter only through `b = wmul32_hi(self, r³) >> 11` (≤ 2 values per top half) and
+    `e = self − s²`, and `sqrtU32OkB` decides a whole operand interval at once (`estSqrtU32_total_of_okB`);
+    the kernel evaluates these checks for the 49 152 + 57 344 normalised top halves. -/
+theorem prim_root_u32_total (x : Nat) (hx : x < 2 ^ 32) :
+    (∃ s r, sqrtRemPrimBits 32 x = some (s, r) ∧ IsRoot x 2 s ∧ s ^ 2 + r = x) ∧
+    (∃ c r, cbrtRemPrimBits 32 x = some (c, r) ∧ IsRoot x 3 c ∧ c ^ 3 + r = x) := by
+  obtain ⟨⟨s, r⟩, h1⟩ := sqrtRemU32_total hx
+  obtain ⟨⟨c, r'⟩, h2⟩ := cbrtRemU32_total hx
+  have s1 := prim_sqrt_rem_sound (bits := 32) (by decide) hx h1
+  have s2 := prim_cbrt_rem_sound (bits := 32) (by decide) hx h2
+  exact ⟨⟨s, r, h1, s1.1, s1.2⟩, ⟨c, r', h2, s2.1, s2.2⟩⟩
+
+/-- … hence the mirrored `u32` routine IS the floor square root with remainder (the contract `sqrt_rem_mirrored_spec`
+    asks of the one-word primitive at word size 32, of the double-word primitive at word size 16) -/
+theorem prim_sqrt_u32_exact : PrimSqrtExact (2 ^ 32) (sqrtRemWordM 32) :=
+  prim_exact_of_total (bits := 32) (by decide) (fun y hy => by
+    obtain ⟨r, hr⟩ := sqrtRemU32_total hy
+    rw [hr]; rfl)
+
+/-- the per-top-half checks are not vacuous: they fail on a top half where the routine would overflow
+    (a non-normalised operand: the table index is out of range) and hold with the answer shown on a normalised one -/
+example : sqrtU32OkH 100 = false ∧ sqrtU32OkH 45513 = true ∧ cbrtU32OkH 100 = false ∧
+    sqrtRemPrimBits 32 (45513 * 65536 + 58256) = some (54614, 109228) := by decide +kernel
+
+/-- **Tie A (Round 5): the tables, index offsets and under-estimate margins are the source's.**  `Gen.RSQRT_TAB`,
+    `Gen.RCBRT_TAB`, `Gen.LOG2_TAB`, the offsets `− 32` / `− 8`, the margins `(s − 1)`, `s −= 4`, `r − 10`, `s −= 10`, `r − 1` and
+    `KBITS` are regenerated from base/src/ring/root.rs / base/src/math/log.rs on every run (vlib/extract_roottabs.py);
+    the model's tables equal them, and every estimate stage of the model equals the same stage with the regenerated
+    table / offset / margin in place of its literal (`est…G`).  The totality theorems above (`prim_root_u16_total`,
+    `prim_root_u32_total`) are therefore statements about the source's tables and margins: changing one of them in
+    the source breaks this theorem (and the build of this module), not only the sampled correspondence. -/
+theorem root_tables_regenerated :
+    RSQRT_TAB = Gen.RSQRT_TAB ∧ RCBRT_TAB = Gen.RCBRT_TAB ∧ packBytes Gen.LOG2_TAB = LOG2_TAB_PACKED ∧
+    estSqrtU16 = estSqrtU16G ∧ estCbrtU16 = estCbrtU16G ∧ estSqrtU32 = estSqrtU32G ∧ estCbrtU32 = estCbrtU32G ∧
+    estSqrtU64 = estSqrtU64G ∧ estCbrtU64 = estCbrtU64G ∧ Gen.sqrt_u128_KBITS = 32 ∧ Gen.cbrt_u128_KBITS = 22 :=
+  ⟨rsqrt_tab_regenerated, rcbrt_tab_regenerated, log2_tab_regenerated.1, estSqrtU16_regenerated, estCbrtU16_regenerated,
+   estSqrtU32_regenerated, estCbrtU32_regenerated, estSqrtU64_regenerated, estCbrtU64_regenerated,
+   u128_kbits_regenerated.1, u128_kbits_regenerated.2⟩
 
 -- ==================================================================== gcd_ext_in_place: coefficient sizes (Round 4)
 
